@@ -29,6 +29,7 @@ TECHNIQUE = "Hypothesis rule-based state machine (model-based) with per-step iso
 #: thorough tier: seed-dependent tasks are repeated under this many derived seeds (run.py); the listed task functions enumerate fixed domains
 THOROUGH_REPS = 1
 DETERMINISTIC_FNS = ()
+RULE += " A node never flags its own fresh hash; ident short names are resolved by the documented alias table, not the hasher's own; a narrow-window rule derives children whose window is a band around the parent's default."
 
 # family -> cheap rounds window used for the first derivation and for probes
 FAMILIES = {
